@@ -84,7 +84,7 @@ where
     /// Receive a response to a capability request from the shell.
     ///
     /// The `output` is serialized capability output. It will be deserialized by the core.
-    /// The `id` MUST match the `id` of the effect that triggered it, else the core will panic.
+    /// The `id` MUST match the `id` of the effect that triggered it, else an error is returned.
     // used in docs/internals/bridge.md
     // ANCHOR: handle_response_sig
     pub fn handle_response(&self, id: u32, output: &[u8]) -> Result<Vec<u8>, BridgeError>
@@ -175,7 +175,7 @@ where
     /// Receive a response to a capability request from the shell.
     ///
     /// The `output` is serialized capability output. It will be deserialized by the core.
-    /// The `id` MUST match the `id` of the effect that triggered it, else the core will panic.
+    /// The `id` MUST match the `id` of the effect that triggered it, else an error is returned.
     pub fn handle_response<'de, D, S>(
         &self,
         id: u32,
